@@ -219,6 +219,40 @@ class World:
         finally:
             memo.clear()
 
+    def build_wrapper(self, t):
+        """Node by node through `dd.autoref.BDD.find_or_add(var, low,
+        high)`, bottom-up along the order the manager has when the
+        construction starts (the wrapper creates nodes with reordering
+        requests suspended, so the order cannot change on the way)."""
+        bdd = self.bdd
+        sp = self.sp
+        order = sorted(self.raw.vars, key=self.raw.vars.get)
+        memo = dict()
+
+        def rec(i, t):
+            if t == sp.full:
+                return bdd.true
+            if t == 0:
+                return bdd.false
+            key = (i, t)
+            if key in memo:
+                return memo[key]
+            while True:
+                v = order[i]
+                lo, hi = sp.cof(t, v, 0), sp.cof(t, v, 1)
+                if lo != hi:
+                    break
+                i += 1
+            p = rec(i + 1, lo)
+            q = rec(i + 1, hi)
+            r = bdd.find_or_add(v, p, q)
+            memo[key] = r
+            return r
+        try:
+            return rec(0, t)
+        finally:
+            memo.clear()
+
     def build_public(self, t):
         """Construction through decorated public operations only
         (`var`, `ite`), holding intermediates; safe under dynamic
@@ -272,7 +306,12 @@ class World:
             sub = Space([v for v in self.sp.names if v in self.build_names])
             if sub.names:
                 t = sub.lift(random_table(self.rng, sub), self.sp)
-        if self.reordering:
+        if self.reordering and self.kind == 'autoref' and \
+                self.rng.random() < 0.4:
+            h = self.build_wrapper(t)
+            self.ctx.count('built_through_autoref_find_or_add')
+            self.accept('autoref.find_or_add', h, t, strict=True)
+        elif self.reordering:
             h = self.build_public(t)
             self.accept('ite', h, t)
         else:
@@ -498,6 +537,7 @@ class World:
         if self.kind != 'bdd':
             return ('clone-skip',)
         import copy
+        vars_before = dict(self.raw.vars)
         c = copy.copy(self.raw)
         inherited = dict(self.ext)
         sp = self.sp
@@ -529,10 +569,9 @@ class World:
         if how <= 2:
             monitors.check_order_maps(c)
             monitors.check_order_maps(self.raw)
-            if 'dup_only' in self.raw.vars or \
-                    set(self.raw.vars) != set(sp.names):
+            if dict(self.raw.vars) != vars_before:
                 raise Violation('__copy__', 'original-changed-by-duplicate',
-                                dict(self.raw.vars))
+                                (dict(self.raw.vars), vars_before))
             if how <= 1:
                 got = c.undeclare_vars('dup_only')
                 if got != {'dup_only'}:
